@@ -101,3 +101,100 @@ func VerifC15PropertyPrecedence() {
 	m2, _ := child2.propertyMap()
 	vAssert(m2["version"] == "explicit" && m2["project.version"] == "9", "built-ins do not override explicit properties")
 }
+
+// VerifC15BuiltinNames: an explicit property whose name is a built-in project property. Without prefix the
+// explicit definition wins (the deprecated un-prefixed form); with the project. or pom. prefix the built-in
+// is what ${...} refers to, whatever the properties table says, and the result reaches a dependency's version.
+func VerifC15BuiltinNames() {
+	names := []string{"version", "groupId", "project.version", "pom.version", "project.groupId", "pom.groupId",
+		"parent.version", "project.parent.version", "project.parent.groupId", "pom.parent.version"}
+	name := names[vParam("name")]
+	p := Project{}
+	p.GroupID = String(vBytes("g", 1))
+	p.Version = String(vBytes("v", 1))
+	p.Parent.GroupID = String(vBytes("pg", 1))
+	p.Parent.Version = String(vBytes("pv", 1))
+	vAssume(p.GroupID != "" && p.Version != "")
+	explicit := vBytes("x", 1)
+	parent := Project{}
+	if vParam("where") == 0 {
+		p.Properties.Properties = []Property{{Name: name, Value: explicit}}
+	} else {
+		parent.Properties.Properties = []Property{{Name: name, Value: explicit}} // inherited from an ancestor
+	}
+	p.Dependencies = []Dependency{{GroupID: "g", ArtifactID: "a", Version: String("${" + name + "}")}}
+	p.MergeParent(parent)
+	err := p.Interpolate()
+	vAssert(err == nil, "interpolation succeeds")
+	if err != nil {
+		return
+	}
+	builtin := map[string]string{
+		"version": string(p.Version), "groupId": string(p.GroupID),
+		"parent.version": string(p.Parent.Version), "parent.groupId": string(p.Parent.GroupID),
+	}
+	want := explicit
+	for _, prefix := range []string{"project.", "pom."} {
+		if len(name) > len(prefix) && name[:len(prefix)] == prefix {
+			want = builtin[name[len(prefix):]]
+			vCover(true, "explicit property named like a prefixed built-in")
+		}
+	}
+	vObserveStr("got", string(p.Dependencies[0].Version))
+	vAssert(string(p.Dependencies[0].Version) == want, "a prefixed built-in is not shadowed by a property of that name; an un-prefixed one is")
+}
+
+// VerifC15ImportOrder: dependencyManagement imports are expanded depth-first in declaration order, first
+// declaration of a key wins: what a BOM imports itself comes before the next BOM of the importing project.
+func VerifC15ImportOrder() {
+	v := func(tag string) String { return String(vBytes(tag, 1)) }
+	p := Project{}
+	p.Dependencies = []Dependency{{GroupID: "g", ArtifactID: "x"}}
+	own := vParam("own") // the project manages x itself
+	if own == 1 {
+		p.DependencyManagement.Dependencies = append(p.DependencyManagement.Dependencies, Dependency{GroupID: "g", ArtifactID: "x", Version: v("own")})
+	}
+	p.DependencyManagement.Dependencies = append(p.DependencyManagement.Dependencies,
+		Dependency{GroupID: "b", ArtifactID: "A", Version: "1", Type: "pom", Scope: "import"},
+		Dependency{GroupID: "b", ArtifactID: "B", Version: "1", Type: "pom", Scope: "import"})
+	// A manages x itself (param), and imports N, which manages x; B manages x
+	aOwn, nHas, bHas := vParam("a"), vParam("n"), vParam("b")
+	va, vn, vb := v("va"), v("vn"), v("vb")
+	p.ProcessDependencies(func(g, a, ver String) (DependencyManagement, error) {
+		switch a {
+		case "A":
+			var ds []Dependency
+			ds = append(ds, Dependency{GroupID: "b", ArtifactID: "N", Version: "1", Type: "pom", Scope: "import"})
+			if aOwn == 1 {
+				ds = append(ds, Dependency{GroupID: "g", ArtifactID: "x", Version: va})
+			}
+			return DependencyManagement{Dependencies: ds}, nil
+		case "N":
+			if nHas == 1 {
+				return DependencyManagement{Dependencies: []Dependency{{GroupID: "g", ArtifactID: "x", Version: vn}}}, nil
+			}
+		case "B":
+			if bHas == 1 {
+				return DependencyManagement{Dependencies: []Dependency{{GroupID: "g", ArtifactID: "x", Version: vb}}}, nil
+			}
+		}
+		return DependencyManagement{}, nil
+	})
+	want := String("")
+	switch {
+	case own == 1:
+		want = v("own")
+	case aOwn == 1:
+		want = va
+	case nHas == 1:
+		want = vn
+	case bHas == 1:
+		want = vb
+	}
+	vCover(own == 0 && aOwn == 0 && nHas == 1 && bHas == 1, "nested import against a later import")
+	vAssert(len(p.Dependencies) == 1, "one dependency")
+	if len(p.Dependencies) == 1 {
+		vObserveStr("got", string(p.Dependencies[0].Version))
+		vAssert(p.Dependencies[0].Version == want, "a version-less dependency takes the first managed version in depth-first import order")
+	}
+}
